@@ -464,6 +464,15 @@ def nrm_check(case, R=None):
             elif via == 'add_constraints_from':
                 F = _classes()['OPB']()
                 F.add_constraints_from([con])
+            elif via in ('add_constraint:nocheck', 'add_constraints_from:nocheck'):
+                # check=False only says "the variables are declared already":
+                # the constraint still is the one written
+                F = _classes()['OPB']()
+                F.update_variable_number(maxabs)
+                if via == 'add_constraint:nocheck':
+                    F.add_constraint(con, check=False)
+                else:
+                    F.add_constraints_from([con], check=False)
             else:                                   # 'constructor'
                 F = _classes()['OPB']([con])
             if via != 'add_constraint' or (d + len(terms)) % 2 == 0:
@@ -535,6 +544,9 @@ def nrm_cases(g, tier):
                 yield {'part': 'nrm', 'terms': g['terms'], 'op': op, 'd': d, 'via': via}
             if d % 3 == 0:
                 for via in ('add_constraints_from', 'constructor'):
+                    yield {'part': 'nrm', 'terms': g['terms'], 'op': op, 'd': d, 'via': via}
+            if d % 3 == 1:
+                for via in ('add_constraint:nocheck', 'add_constraints_from:nocheck'):
                     yield {'part': 'nrm', 'terms': g['terms'], 'op': op, 'd': d, 'via': via}
 
 
